@@ -32,6 +32,12 @@ func verifC38Options(pick func(name string) int) Options {
 	if pick("LargeFiles") == 1 {
 		o.LargeFiles = []string{"*.md"}
 	}
+	if pick("LargeFilesOrder") == 1 {
+		// the last matching pattern wins (IgnoreSizeMax), so the order of the patterns matters
+		o.LargeFiles = append([]string{"!big.md"}, o.LargeFiles...)
+	} else {
+		o.LargeFiles = append(o.LargeFiles, "!big.md")
+	}
 	if pick("LanguageMap") == 1 {
 		o.LanguageMap = ctags.LanguageMap{"go": ctags.ScipCTags}
 	}
@@ -41,7 +47,7 @@ func verifC38Options(pick func(name string) int) Options {
 	return o
 }
 
-var verifC38Fields = []string{"none", "SizeMax", "TrigramMax", "DisableCTags", "CTagsMustSucceed", "CTagsPath", "ScipCTagsPath", "LargeFiles", "LanguageMap",
+var verifC38Fields = []string{"none", "SizeMax", "TrigramMax", "DisableCTags", "CTagsMustSucceed", "CTagsPath", "ScipCTagsPath", "LargeFiles", "LargeFilesOrder", "LanguageMap",
 	"version", "secondBranch", "url", "rawconfig", "ShardMax", "Parallelism"}
 
 func H_C38_indexState() {
@@ -54,6 +60,8 @@ func H_C38_indexState() {
 	}
 	o1 := verifC38Options(func(n string) int { return base[n] })
 	diff := verifC38Fields[verifrt.Concretize(verifrt.IntRange("differingField", 0, len(verifC38Fields)-1))]
+	// permuting the large-file patterns only changes something when there are two of them
+	verifrt.Assume(!(diff == "LargeFilesOrder" && base["LargeFiles"] == 0))
 	o2 := verifC38Options(func(n string) int {
 		if n == diff {
 			return 1 - base[n]
@@ -74,7 +82,7 @@ func H_C38_indexState() {
 	switch diff {
 	case "none":
 		verifrt.Assert(state == IndexStateEqual, "an unchanged repository with unchanged options is up to date")
-	case "SizeMax", "TrigramMax", "DisableCTags", "CTagsMustSucceed", "CTagsPath", "ScipCTagsPath", "LargeFiles", "LanguageMap":
+	case "SizeMax", "TrigramMax", "DisableCTags", "CTagsMustSucceed", "CTagsPath", "ScipCTagsPath", "LargeFiles", "LargeFilesOrder", "LanguageMap":
 		verifrt.Assert(state != IndexStateEqual && state != IndexStateMeta, "changing the content-affecting option "+diff+" causes a re-index")
 	case "version", "secondBranch":
 		verifrt.Assert(state != IndexStateEqual && state != IndexStateMeta, "changing the indexed branches or their versions causes a re-index")
